@@ -7,7 +7,7 @@ from hypothesis import strategies as st
 from vlib import gens
 from vlib.core import unchanged, Prop, Sub, Violation, calling, check
 from vlib.oracles import bvls, lp_dist, lp_sum_extreme
-from vlib.systems import proportional_variant, Sys, matrix_system, target_rows
+from vlib.systems import whole_number_model, proportional_variant, Sys, matrix_system, target_rows
 
 HIGH = dict(solver="CLARABEL", tol_gap_abs=1e-9, tol_gap_rel=1e-9, tol_feas=1e-9, max_iter=500)
 
@@ -195,6 +195,16 @@ def body_var(case):
                 check(np.array_equal(E0, Earg), "var:input-modified", "the caller's variance matrix was modified by the call")
             if case.get("repeat"):
                 again = lsq_linear_minimize(sv.A, B, Earg, W=w_arg, l2_eps=l2_eps, L1=L1, l1_eps=l1_eps, return_pred=True, **sv.kwargs(), **opt)
+            # whole-number targets (counts): the int64 array gets the result of the same numbers as floats (no L1 request, no norm)
+            whole = np.round(B)
+            opt_w = {k: v for k, v in opt.items() if k != "norm"}
+            wm = whole_number_model(sv) if B.shape[0] % 2 else None      # half of the cases: K and baseline whole numbers too
+            kw_i, kw_f = (sv.kwargs(), sv.kwargs()) if wm is None else (dict(sv.kwargs(), **wm[0]), dict(sv.kwargs(), **wm[1]))
+            with calling(f"lsq_linear_minimize(Epsilon={ek}) of whole-number targets{'' if wm is None else ', K and baseline'} (int64 / float64)"):
+                Xi = np.asarray(lsq_linear_minimize(sv.A, whole.astype(np.int64), Earg, W=w_arg, l2_eps=l2_eps, **kw_i, **opt_w))
+                Xf = np.asarray(lsq_linear_minimize(sv.A, whole.copy(), Earg, W=w_arg, l2_eps=l2_eps, **kw_f, **opt_w))
+            check(Xi.shape == Xf.shape and np.all(np.abs(Xi - Xf) <= 1e-6 * float(np.max(sv.ub - sv.lb))), "var:integer-targets-differ",
+                  f"targets {whole.tolist()} as an int64 array give {Xi.tolist()}, as floats {Xf.tolist()} (Epsilon={ek})")
     X, Bp, Bv = np.asarray(X), np.asarray(Bp), np.asarray(Bv)
     check(X.shape == (B.shape[0], sv.n) and Bp.shape == B.shape and Bv.shape == B.shape, "var:shape", f"{X.shape} {Bp.shape} {Bv.shape}")
     labs = sv.labels() + [f"eps:{ek}", "L1" if L1 is not None else "noL1", "acc:high" if high else "acc:default", "W" if w_arg is not None else "noW"]
